@@ -5,6 +5,7 @@ package main
 import (
 	"flag"
 	"fmt"
+	"math/rand"
 	"os"
 	"sort"
 	"strings"
@@ -301,3 +302,50 @@ func namedReplay(args []string) int {
 	wg.Wait()
 	return 0
 }
+
+// named-drive: free-running random concurrent operations on real registries (for the race
+// detector build, C32) - no gates, no comparison; a panic or fatal error kills the process.
+func namedDrive(args []string) int {
+	fs := flag.NewFlagSet("named-drive", flag.ExitOnError)
+	seed := fs.Int64("seed", 1, "seed")
+	regs := fs.Int("n", 8, "registries")
+	ops := fs.Int("ops", 300, "operations per client")
+	fs.Parse(args)
+	var wg sync.WaitGroup
+	for r := 0; r < *regs; r++ {
+		nm := pipes.NewNamed()
+		n := &nm
+		for c := 0; c < 4; c++ {
+			wg.Add(1)
+			go func(r, c int) {
+				defer wg.Done()
+				rng := rand.New(rand.NewSource(*seed*1000 + int64(r*10+c)))
+				names := []string{"a", "b", "c"}
+				for i := 0; i < *ops; i++ {
+					name := names[rng.Intn(len(names))]
+					switch rng.Intn(6) {
+					case 0:
+						n.CreatePipe(name, "std", "")
+					case 1:
+						n.Close(name)
+					case 2:
+						n.Delete(name)
+					case 3:
+						if rng.Intn(8) == 0 {
+							n.Get(name)
+						}
+					case 4:
+						n.Dump()
+					case 5:
+						time.Sleep(time.Duration(rng.Intn(200)) * time.Microsecond)
+					}
+				}
+			}(r, c)
+		}
+	}
+	wg.Wait()
+	time.Sleep(2500 * time.Millisecond) // let the close timers fire
+	return 0
+}
+
+func init() { register("named-drive", namedDrive) }
